@@ -31,5 +31,6 @@ def run(sid):
     json.dump(meta, open(f'/verif/seeded/{sid}/meta.json', 'w'), indent=1)
     return sid, meta["caught_by_own_check"], d.get("suite"), d["demo_clean"]["rc"], d["demo_patched"]["rc"], d["checks"][prop]["keys"][:2]
 with cf.ThreadPoolExecutor(4) as ex:
-    for r in ex.map(run, sorted(META)):
+    only = set(sys.argv[1:])
+    for r in ex.map(run, sorted(k for k in META if not only or k[-1] in only or k in only)):
         print(*r)
